@@ -19,6 +19,24 @@ func c28(p *core.Program, r *core.Report) {
 	r.Rule("R2", "API-level parity: every API write entry that sets bits (Set via executor.executeSet, API.Import, API.ImportValue, API.ImportRoaring) records the written columns in the index's existence field when the write is not a clear, and validates shard ownership before writing locally")
 	r.Rule("R4", "the caller keeps its slices: the functions of packages pilosa and roaring that overwrite a slice parameter in place are computed (element stores, copy, in-place sorts, hand-over to such a parameter, variadic spreads; (*fragment).bulkImportStandard is the anchor); outside fragment methods a variable or field handed to such a parameter is not read again later in the function or in the same loop (a range variable rebound per iteration excepted)")
 	c28CallerKeepsItsSlices(p, r)
+	// R5: issuing the same writes as Set() queries ends on the last one per column; the mutex/bool
+	// import reduces its batch to that in one loop. The obligations are C13-R4's.
+	r.Rule("R5", "last write wins in a batch (= C13-R4): fragment.bulkImportMutex's reduction loop records every input pair in the per-column map before anything can skip it, so a column written twice in one batch ends on the row the same writes issued one by one would leave")
+	{
+		tmp := core.NewReport("C13", r.Tier)
+		c13(p, tmp)
+		n := 0
+		for _, o := range tmp.Obls {
+			if o.Rule == "R4" {
+				o.Rule = "R5"
+				r.Obls = append(r.Obls, o)
+				n++
+			}
+		}
+		r.Floor("C28/R5 obligations taken over from C13-R4", n, 1)
+	}
+	r.Rule("R6", "Import selects views as the queries do: in Field.Import the standard view becomes a target only under `!options.NoStandardView` (as in SetBit), and under options.Clear the targets are enumerated from the field's view registry (views()/viewMap), as ClearBit does for every time view")
+	c28ImportSelectsViewsLikeTheQueries(p, r)
 	r.Rule("R3", "time-view parity: the single-bit path (Field.SetBit) and the bulk path (Field.Import) derive the time views to write from the same function (viewsByTime) with the field's quantum")
 	r.NotDecided = "equality of query answers on generated data; duplicate handling inside one batch"
 	b, err := newFxBase(p)
